@@ -62,21 +62,35 @@ def make_int(s, bits=None):
     return v
 
 
-def make_float(s):
-    """Try to make an integer"""
+def make_float(s, bits=64):
+    """Try to make a float, bits is the size of the float type"""
     if isinstance(s, float):
         return s
     elif isinstance(s, int):
         return float(s)
     elif isinstance(s, str):
         if hex_nan_prog.match(s):
-            return math.nan
+            return make_nan(s, bits)
         elif hex_float_prog.match(s):
             return float.fromhex(s.replace("_", ""))
         else:
             return float(s)
     else:
         raise NotImplementedError(str(s))
+
+
+def make_nan(s, bits):
+    """Make the nan with the sign and the payload given as nan:0x.."""
+    sign, payload = s.split("nan:")
+    if not payload.startswith("0x"):
+        return math.nan
+    sign, payload = int(sign == "-"), int(payload, 16)
+    if not 0 < payload < 1 << (23 if bits == 32 else 52):
+        raise ValueError(f"Invalid nan payload: {s}")
+    if bits == 32:
+        return f32_from_bits(sign << 31 | 0x7F800000 | payload)
+    else:
+        return f64_from_bits(sign << 63 | 0x7FF << 52 | payload)
 
 
 def f64_from_bits(bits: int) -> float:
